@@ -20,6 +20,7 @@ RULE = (
     "Channels: PerfectChannel; a harness LambdaChannel that flips <=t coded bits per block (every single position and every pair for n<=15, seeded patterns of each weight otherwise); "
     "a harness LambdaChannel displacing every symbol by 0.5 and 0.98 of d_min/2 in a random direction. Oracle: exact equality with the transmitted message. Messages exhaustive for "
     "k<=8, seeded otherwise; batch sizes 1 and 4. Distinct = (chain, channel fault, message batch); non-trivial = non-zero message or a non-empty fault."
+    " Added after the seeded-fault rounds: BCH(15,5)+BM chains with all triple flips, sibling codes of equal class and shape in one process, message bits as int64/uint8/float64."
 )
 ASSUMPTIONS = [
     "t = floor((d-1)/2) with d the reference's true distance of the code actually produced; d_min from the effective constellation (driving the real modulator)",
